@@ -236,7 +236,7 @@ def make_replay(prop, rec, failed, out_dir):
                 "R=${XSIMD_REPO:-/repo}\n"
                 "clang-14 -x c -O1 -w -c checker.c -I %s/rt -I %s/spec -o checker.o\n"
                 "g++ -std=c++14 -O2 -w %s -I $R/include driver.cpp checker.o -o replay.bin\n./replay.bin\n"
-                % (VERIF, VERIF, " ".join(HOST_MFLAGS)))
+                % (VERIF, VERIF, " ".join(HOST_MFLAGS) if fn.aid else "-ffp-contract=off"))   # scalar overloads: the baseline x86-64 build (no FMA contraction by the compiler)
     os.chmod(os.path.join(out_dir, "build.sh"), 0o755)
     return {"has_input": has_input, "inputs": {str(k): {str(o): hex(v) for o, (nb, v) in d.items()} for k, d in inputs.items()},
             "call": call, "pre": pre[:2000], "post": post[:4000]}
